@@ -1,1 +1,132 @@
-From Util Require Import Common.Base Common.ListLemmas RefCount.Model RefCount.Proofs.
+(* C08 - refcount: every release function returned by the resolver is called exactly once, not while the value is
+   referenced and valid, no later than the last reference / the context / the validity goes away; at that moment the
+   target container no longer holds the value and every reference callback has been told it is gone.
+   Statements only.  All theorems are about the gate-level model RefCount.Model (REPAIRED code) and quantify over ALL
+   event lists; [wf_ev]: a resolver call on goroutine g returns the generation-unique value g+1 and never
+   context.Canceled (the codec produces only such events: codec_only_wf_returns below).
+   The log [rellog] records every call of a release function: which one ([rc_id] = the goroutine that returned it),
+   the value it belongs to, the target container's content at that moment, and how many references in the set had
+   last been told that this value is current. *)
+From Util Require Import Common.Base Common.ListLemmas RefCount.Model RefCount.Spec RefCount.Proofs RefCount.ProofsC08 RefCount.ProofsC08b
+  RefCount.ProofsCodec.
+Open Scope nat_scope.
+
+(* at most once *)
+Theorem c08_release_at_most_once : forall ku es, Forall wf_ev es ->
+  NoDup (map rc_id (rellog (run repaired (init ku) es))).
+Proof. exact release_at_most_once. Qed.
+Print Assumptions c08_release_at_most_once.
+
+(* at the moment a release function runs: it is the release function of value g+1, the target container does not hold
+   that value, no reference in the set still believes it current; it was really returned by goroutine g, which has ended *)
+Theorem c08_at_release_target_clear_and_refs_told : forall ku es, Forall wf_ev es ->
+  let s := run repaired (init ku) es in
+  forall c, In c (rellog s) ->
+    rc_val c = S (rc_id c) /\ rc_target c <> rc_val c /\ rc_stale c = 0 /\
+    rc_id c < length (gs s) /\ gdone (getg s (rc_id c)) = true /\ grel (getg s (rc_id c)) = true.
+Proof. exact at_release_target_clear_and_refs_told. Qed.
+Print Assumptions c08_at_release_target_clear_and_refs_told.
+
+(* exactly once, safety half: a returned release function ([grel], ghost) is uncalled iff it belongs to the stored value
+   or to a result waiting at its store gate *)
+Theorem c08_stored_iff_unreleased : forall ku es, Forall wf_ev es ->
+  let s := run repaired (init ku) es in
+  forall g, g < length (gs s) -> grel (getg s g) = true ->
+    (~ In g (map rc_id (rellog s)) <-> (vrel s = Some g \/ exists v e, gpcv (getg s g) = GStore v true e)).
+Proof. exact stored_iff_unreleased. Qed.
+Print Assumptions c08_stored_iff_unreleased.
+
+(* no leak ("no later than ..."): an uncalled release function belongs to a result whose store section is still to run
+   (an enabled internal step), or to the stored value, and then the container has a context and a reference, or
+   keep-unreferenced is set and the value resolved without error *)
+Theorem c08_no_leak : forall ku es, Forall wf_ev es ->
+  let s := run repaired (init ku) es in
+  forall g, g < length (gs s) -> grel (getg s g) = true -> ~ In g (map rc_id (rellog s)) ->
+    (exists v e, gpcv (getg s g) = GStore v true e) \/
+    (vrel s = Some g /\ resolved s = true /\ value s = S g /\ kctx s <> 0 /\ (nrefs s > 0 \/ (keep s = true /\ verr s = 0))).
+Proof. exact no_leak. Qed.
+Print Assumptions c08_no_leak.
+
+(* which steps call a release function ("not while a reference that was given that value is still held and the value
+   has not been invalidated"): per step, from every reachable state, the log grows by at most one call, and only
+   - in SetContext with a different context, a released() section of the current generation (synchronous or
+     asynchronous): the stored value's release function, or
+   - in a removeRef section (explicit Release, or the goroutine of WaitWithReleased) after which no reference is left
+     and not (keep-unreferenced and resolved without error): the stored value's release function, or
+   - in the store section of a superseded goroutine: its own result's release function (never delivered, see below).
+   [log_step] and [invalidating] are defined in ProofsC08b.v and unfold to exactly this. *)
+Theorem c08_release_only_when_invalidated_or_unreferenced : forall ku es e, Forall wf_ev es ->
+  let s := run repaired (init ku) es in
+  let s' := step repaired s e in
+  rellog s' = rellog s \/
+  exists c, rellog s' = rellog s ++ [c] /\
+    ((vrel s = Some (rc_id c) /\ rc_val c = value s /\
+      match e with
+      | ESetCtx ctx => kctx s <> ctx
+      | EReleased g => exists x, nth_error (gs s) g = Some x /\ gnonce x = nonce s
+      | EAsync a => exists x, nth_error (asyncs s) a = Some x /\ as_pc x = AParked /\ as_nonce x = nonce s
+      | ERelSect _ | EFire _ => nrefs s' = 0 /\ nrefs s = 1 /\ ~ (keep s = true /\ resolved s = true /\ verr s = 0)
+      | _ => False
+      end) \/
+     (exists g x v er, e = EStore g /\ rc_id c = g /\ rc_val c = v /\ nth_error (gs s) g = Some x /\
+                       gpcv x = GStore v true er /\ gnonce x <> nonce s)).
+Proof. intros ku es e Hwf. exact (step_log _ e (run_inv ku es Hwf)). Qed.
+Print Assumptions c08_release_only_when_invalidated_or_unreferenced.
+
+(* a result waiting at its store gate has not been handed to anybody: not in the target container, not the stored
+   value, not the last notification of any reference *)
+Theorem c08_pending_value_not_in_circulation : forall ku es, Forall wf_ev es ->
+  let s := run repaired (init ku) es in
+  forall g v hr e, g < length (gs s) -> gpcv (getg s g) = GStore v hr e ->
+    v = S g /\ target s <> v /\ (resolved s = true -> value s <> v) /\
+    (forall r x er, nth_error (refs s) r = Some x -> rlast x <> Some (NRes v er)).
+Proof. exact pending_value_not_in_circulation. Qed.
+Print Assumptions c08_pending_value_not_in_circulation.
+
+(* the order inside clearResolvedState: clear the target containers and tell every reference callback, cancel the
+   resolve context, then call the release function (whose log entry is taken in that final state) *)
+Theorem c08_release_order : forall s,
+  clear_resolved s = release_phase (value s) (verr s) (cancel_phase (clear_phase s)).
+Proof. exact clear_resolved_order. Qed.
+Theorem c08_release_after_cancel : forall s g, rcancel s = Some g -> g < length (gs s) -> gcanc (getg (cancel_phase s) g) = true.
+Proof. exact cancel_phase_cancels. Qed.
+Print Assumptions c08_release_order.
+
+(* the codec of the correspondence produces only well-formed resolver returns *)
+Theorem codec_only_wf_returns : forall h g hr er h' o,
+  hstep h [8%N; g; hr; er] = Some (h', o) -> exists e, wf_ev e /\ hs h' = settle (step repaired (hs h) e).
+Proof. exact codec_resreturn_wf. Qed.
+Print Assumptions codec_only_wf_returns.
+
+(* ---- non-vacuity ---- *)
+Definition ex_last_release : list ev :=
+  [ESetCtx 1; EAddRef 1; EProceed 0 true; EResReturn 0 1 true 0; EStore 0; ERelease 0; ERelSect 0].
+Example c08_example_last_reference_released :
+  Forall wf_ev ex_last_release /\
+  let s := run repaired (init false) ex_last_release in
+  rellog s = [{| rc_id := 0; rc_val := 1; rc_target := 0; rc_stale := 0 |}] /\ vrel s = None /\ target s = 0.
+Proof. split; [repeat constructor; discriminate | vm_compute; repeat split; reflexivity]. Qed.
+
+(* keep-unreferenced: the value survives the last Release; ClearContext releases it *)
+Example c08_example_keep_unreferenced :
+  let es := [ESetCtx 1; EAddRef 1; EProceed 0 true; EResReturn 0 1 true 0; EStore 0; ERelease 0; ERelSect 0] in
+  let s := run repaired (init true) es in
+  rellog s = [] /\ vrel s = Some 0 /\ target s = 1 /\ nrefs s = 0 /\
+  map rc_id (rellog (step repaired s (ESetCtx 0))) = [0].
+Proof. vm_compute. repeat split; reflexivity. Qed.
+
+(* a superseded goroutine's result is released by its own store section and never delivered *)
+Example c08_example_superseded :
+  let es := [ESetCtx 1; EAddRef 1; EProceed 0 true; ESetCtx 2; EResReturn 0 1 true 0] in
+  let s := run repaired (init false) es in
+  gpcv (getg s 0) = GStore 1 true 0 /\ rellog s = [] /\
+  rellog (step repaired s (EStore 0)) = [{| rc_id := 0; rc_val := 1; rc_target := 0; rc_stale := 0 |}] /\
+  target (step repaired s (EStore 0)) = 0.
+Proof. vm_compute. repeat split; reflexivity. Qed.
+
+(* released(): the old value is released, a new goroutine resolves afresh *)
+Example c08_example_released :
+  let es := [ESetCtx 1; EAddRef 1; EProceed 0 true; EResReturn 0 1 true 0; EStore 0; EReleased 0] in
+  let s := run repaired (init false) es in
+  map rc_id (rellog s) = [0] /\ length (gs s) = 2 /\ resolved s = false /\ nrefs s = 1.
+Proof. vm_compute. repeat split; reflexivity. Qed.
